@@ -1,11 +1,13 @@
 (** C04 — redirects issued by wonderwall never leave the application's allowed origins.
     Only statements; proofs are in Proofs/{RedirectP,GoUrlP,WhatwgP,RedirectSafeP,AbsoluteP}.v.
     Model: Model/GoUrl.v (net/url, path.Clean, net/http.Redirect), Model/Redirect.v (pkg/url validators and
-    the three Redirect implementations), Model/Whatwg.v (WHATWG URL parser restricted to the origin).
+    the three Redirect implementations), Model/Whatwg.v (WHATWG URL parser restricted to the origin),
+    Model/RetryUri.v (the error handler's automatic retry: Standalone.Retry, LoginRelative, JoinPath, the request line
+    as net/http parses it; proofs in Proofs/RetryUriP.v, statements at the end of this file).
     Byte strings are [list N]; no bound on their length or content is assumed anywhere below. *)
 From Coq Require Import NArith List Bool Lia.
-From WW Require Import Gen.Params Base.Bytes Model.GoUrl Model.Redirect Model.Whatwg
-  Proofs.GoUrlP Proofs.RedirectP Proofs.WhatwgP Proofs.RedirectSafeP Proofs.AbsoluteP Proofs.AuthorityP.
+From WW Require Import Gen.Params Base.Bytes Model.GoUrl Model.Redirect Model.Whatwg Model.RetryUri
+  Proofs.GoUrlP Proofs.RedirectP Proofs.WhatwgP Proofs.RedirectSafeP Proofs.AbsoluteP Proofs.AuthorityP Proofs.RetryUriP.
 Import ListNotations.
 Open Scope N_scope.
 
@@ -137,3 +139,162 @@ Example c04_nonvacuous_absolute :
   absolute_valid [[97;46;98]] [104;116;116;112;115;58;47;47;101;118;105;108;97;46;98;47] = false /\
   absolute_valid [[97;46;98]] [104;116;116;112;115;58;47;47;97;46;98;64;101;46;99;47] = false.
 Proof. vm_compute. repeat split. Qed.
+
+(** * The error handler's automatic retry (pkg/handler/error.go: Standalone.Retry -> http.Redirect 307; the error page's
+    retry link). Model/RetryUri.v; compared with the real handler behind the real router on every 307 and every error page of
+    `wwh retryloc`. The SSO server embeds Standalone (mode [RuSsoServer]); the SSO proxy has no error handler.
+
+    Hypotheses used below, and why:
+    - [ru_routed_shape u] (no opaque part; the escaped path is "/" followed by a non-slash): the error handler is reached only
+      through the router, which dispatches on the path; for a record net/http builds from a request line it follows from
+      "r.URL.Path starts with exactly one slash" (Proofs/RetryUriP.v [ru_request_url_shape], used by
+      [c04_retry_from_request_line]). What Retry would return for other records is shown by [c04_retry_unrouted_refuted].
+    - the matched ingress path is [ru_segs l] with [Forall ru_plain_seg l]: "" or "/seg/seg...", every segment non-empty, not
+      "." / "..", made of bytes net/url writes unescaped in a path (letters, digits, - _ . ~ $ & + , : ; = @). Operator
+      configuration; needed only for the LITERAL form of the callback branches (JoinPath cleans and re-escapes the prefix). *)
+
+(** How net/http fills r.URL for the request-target forms (non-CONNECT): what Retry reads afterwards. *)
+From Coq Require Import String.
+From WW Require Import Base.BytesLit.
+
+Example c04_retry_request_targets :
+  (* origin-form *)
+  option_map (fun u => (u_scheme u, u_host u, u_path u, u_rawquery u)) (ru_request_url (bs "/oauth2/login?a=b#c"))
+    = Some ([], [], bs "/oauth2/login", bs "a=b#c") /\
+  (* absolute-form, with userinfo *)
+  option_map (fun u => (u_scheme u, u_user u, u_host u, u_path u)) (ru_request_url (bs "HTTP://u:p@Evil.Example:8443/oauth2/login"))
+    = Some (bs "http", Some (bs "u", Some (bs "p")), bs "Evil.Example:8443", bs "/oauth2/login") /\
+  (* scheme without authority / with empty authority / without a slash (opaque) *)
+  option_map (fun u => (u_scheme u, u_host u, u_path u, u_omithost u)) (ru_request_url (bs "http:/oauth2/login"))
+    = Some (bs "http", [], bs "/oauth2/login", true) /\
+  option_map (fun u => (u_scheme u, u_host u, u_path u, u_omithost u)) (ru_request_url (bs "http:///oauth2/login"))
+    = Some (bs "http", [], bs "/oauth2/login", false) /\
+  option_map (fun u => (u_scheme u, u_opaque u, u_path u)) (ru_request_url (bs "http:oauth2/login"))
+    = Some (bs "http", bs "oauth2/login", []) /\
+  (* no authority parsing without a scheme: the doubled slash stays in the path *)
+  option_map (fun u => (u_host u, u_path u)) (ru_request_url (bs "//evil.example/oauth2/login"))
+    = Some ([], bs "//evil.example/oauth2/login") /\
+  ru_request_url (bs "oauth2/login") = None.
+Proof. vm_compute. repeat split. Qed.
+
+(** (a), all branches: for every mode, configured path list, URL record of routed shape - any scheme, userinfo, host, query,
+    fragment, flags - and login cookie (absent, or with any Referer; the Host header and X-Forwarded-Host are not inputs of Retry
+    at all): the retry Location resolves, against ANY base URL, to that base's own origin. As a statement about its bytes: it
+    starts with exactly one slash followed by no slash, backslash, space or control byte. The one other outcome, only in the last
+    branch (the request URL with Scheme and Host blanked - not User) and only for a record WITH userinfo: the string
+    "//userinfo@path?query" written as it is because url.Parse inside http.Redirect rejected it - and then no WHATWG parser makes
+    a URL of it (empty host). Never a foreign origin. *)
+Theorem c04_retry_location_safe : forall idna bscheme bhost bport m paths u referer l,
+  ru_matching_path paths (u_path u) = ru_segs l -> Forall ru_plain_seg l -> ru_routed_shape u ->
+  (whatwg_origin idna bscheme bhost bport (ru_retry_location m paths u referer) = WTuple bscheme bhost bport \/
+   (u_user u <> None /\
+    has_suffix (u_path u) (path_oauth2 ++ path_logout_callback) = false /\
+    has_suffix (u_path u) (path_oauth2 ++ path_callback) = false /\
+    whatwg_origin idna bscheme bhost bport (ru_retry_location m paths u referer) = WFail)) /\
+  (one_slash (ru_retry_location m paths u referer) \/
+   (exists ui, u_user u = Some ui /\
+      ru_retry_location m paths u referer =
+        hex_escape_non_ascii (47 :: 47 :: userinfo_string ui ++ 64 :: escaped_path u ++ query_fragment_string u) /\
+      whatwg_origin idna bscheme bhost bport (ru_retry_location m paths u referer) = WFail)).
+Proof. exact ru_retry_location_safe. Qed.
+Print Assumptions c04_retry_location_safe.
+
+(** (a) from the wire: for every request-target net/http accepts whose path starts with exactly one slash, every login cookie:
+    a Location is produced and it stays on the origin it is resolved against; the refused "//userinfo@" case needs an
+    absolute-form target with userinfo. *)
+Theorem c04_retry_from_request_line : forall idna bscheme bhost bport m paths target referer u l,
+  ru_request_url target = Some u ->
+  has_prefix (u_path u) [47] = true -> has_prefix (u_path u) [47; 47] = false ->
+  ru_matching_path paths (u_path u) = ru_segs l -> Forall ru_plain_seg l ->
+  exists loc, ru_wire_location m paths target referer = Some loc /\
+    (whatwg_origin idna bscheme bhost bport loc = WTuple bscheme bhost bport \/
+     (u_user u <> None /\ u_scheme u <> [] /\ whatwg_origin idna bscheme bhost bport loc = WFail)).
+Proof. exact ru_wire_location_origin. Qed.
+Print Assumptions c04_retry_from_request_line.
+
+(** (b) the callback branches, literally. Login callback: <matched ingress path>/oauth2/login?redirect=<QueryEscape(redirect)>,
+    where the redirect is Clean(cookie Referer) when a login cookie with a non-empty Referer decrypts, else Canonical(r): in
+    either case a redirect the mode's validator accepted, or the mode's default (for the standalone validator see
+    c04_standalone_canonical_same_origin / c04_standalone_callback_same_origin above). Logout callback: <matched ingress
+    path>/oauth2/logout. The request's scheme, userinfo, host, Host header and the rest of its query do not occur. *)
+Theorem c04_retry_callback_branches : forall m paths u referer l,
+  ru_matching_path paths (u_path u) = ru_segs l -> Forall ru_plain_seg l ->
+  (has_suffix (u_path u) (path_oauth2 ++ path_logout_callback) = true ->
+   ru_retry_location m paths u referer = ru_segs l ++ path_oauth2 ++ path_logout) /\
+  (has_suffix (u_path u) (path_oauth2 ++ path_logout_callback) = false ->
+   has_suffix (u_path u) (path_oauth2 ++ path_callback) = true ->
+   ru_retry_location m paths u referer =
+   ru_segs l ++ path_oauth2 ++ path_login ++ ru_login_query (ru_callback_redirect m (ru_segs l) u referer)) /\
+  match m with
+  | RuStandalone =>
+      relative_valid (ru_callback_redirect m (ru_segs l) u referer) = true \/
+      ru_callback_redirect m (ru_segs l) u referer = url_string (matching_path (ru_segs l))
+  | RuSsoServer d f =>
+      absolute_valid [d] (ru_callback_redirect m (ru_segs l) u referer) = true \/
+      ru_callback_redirect m (ru_segs l) u referer = url_string f
+  end.
+Proof. exact ru_callback_branches. Qed.
+Print Assumptions c04_retry_callback_branches.
+
+(** Non-vacuity: ingress paths /app and /other, absolute-form callback naming a foreign host, login cookie with Referer "/x?y". *)
+Example c04_retry_nonvacuous :
+  let target := bs "https://evil.example/app/oauth2/callback?code=c&state=s" in
+  exists u, ru_request_url target = Some u /\
+    has_prefix (u_path u) [47] = true /\ has_prefix (u_path u) [47; 47] = false /\
+    ru_matching_path [bs "/app"; bs "/other"] (u_path u) = ru_segs [bs "app"] /\
+    ru_wire_location RuStandalone [bs "/app"; bs "/other"] target (Some (bs "/x?y"))
+    = Some (bs "/app/oauth2/login?redirect=%2Fx%3Fy").
+Proof. exact ru_callback_example. Qed.
+Example c04_retry_nonvacuous_prefix : Forall ru_plain_seg [bs "app"].
+Proof. exact ru_plain_prefix_app. Qed.
+
+(** (a) as literally worded - "never starts with //" - is FALSE: GET https://u@app.example.com/oauth2/login?x#%zz with a
+    failing login. The Location is "//u@/oauth2/login?x#%zz" (model and real code agree: `wwh retryloc` drives this form);
+    browsers refuse it (WHATWG: empty host), which is why the theorems above end in "or the parser fails". *)
+Theorem c04_retry_single_slash_refuted :
+  let target := bs "https://u@app.example.com/oauth2/login?x#%zz" in
+  exists u loc, ru_request_url target = Some u /\
+    has_prefix (u_path u) [47] = true /\ has_prefix (u_path u) [47; 47] = false /\
+    ru_wire_location RuStandalone [[]] target None = Some loc /\
+    loc = bs "//u@/oauth2/login?x#%zz" /\
+    whatwg_origin idna_marker w_https (bs "app.example.com") None loc = WFail.
+Proof. exact ru_single_slash_witness. Qed.
+Print Assumptions c04_retry_single_slash_refuted.
+
+(** With a decodable tail http.Redirect cleans the same kind of target to a path on the ingress (the observed
+    "/app.example.com@/oauth2/login": a wrong path on the right origin). *)
+Example c04_retry_userinfo_cleaned :
+  ru_wire_location RuStandalone [[]] (bs "https://app.example.com@evil.example/oauth2/login") None
+  = Some (bs "/app.example.com@/oauth2/login").
+Proof. exact ru_userinfo_cleaned_witness. Qed.
+
+(** Why the routed shape is needed - what Retry returns for records the router never hands to the error handler.
+    (1) An opaque request-target: the opaque part, a foreign origin. Its Path is empty, so the router gives it to the wildcard
+    handler. (2) A path starting with "//" comes back as a scheme-relative reference; routed only under an ingress whose
+    configured path starts with "//" (operator configuration). (3) A record net/http cannot build: userinfo and a path without
+    leading slash. *)
+Theorem c04_retry_unrouted_refuted :
+  (let target := bs "http:https://evil.example/" in
+   exists u loc, ru_request_url target = Some u /\ u_path u = [] /\ u_opaque u = bs "https://evil.example/" /\
+     ru_wire_location RuStandalone [[]] target None = Some loc /\ loc = bs "https://evil.example/" /\
+     whatwg_origin idna_marker w_https (bs "app.example.com") None loc = WTuple w_https (bs "evil.example") None) /\
+  (let target := bs "//evil.example/oauth2/login" in
+   exists u loc, ru_request_url target = Some u /\ u_path u = target /\
+     ru_wire_location RuStandalone [bs "//evil.example"] target None = Some loc /\ loc = target /\
+     whatwg_origin idna_marker w_https (bs "app.example.com") None loc = WTuple w_https (bs "evil.example") None) /\
+  (let u := mkurl [] [] (Some (bs "x", None)) [] (bs "evil.example/oauth2/login") [] false false [] [] [] in
+   ru_retry_location RuStandalone [[]] u None = bs "//x@evil.example/oauth2/login" /\
+   whatwg_origin idna_marker w_https (bs "app.example.com") None (ru_retry_location RuStandalone [[]] u None)
+   = WTuple w_https (bs "evil.example") None).
+Proof. exact (conj ru_opaque_witness (conj ru_double_slash_witness ru_user_relpath_witness)). Qed.
+Print Assumptions c04_retry_unrouted_refuted.
+
+(** Blanking is load-bearing: the seeded variant (seeded/C04r3: the last branch returns r.RequestURI) sends an absolute-form
+    target for a foreign host back as it came in, while the code as it is answers "/oauth2/login". *)
+Theorem c04_retry_request_uri_refuted :
+  let target := bs "http://evil.example/oauth2/login" in
+  ru_wire_location_seeded RuStandalone [[]] target None = Some target /\
+  whatwg_origin idna_marker w_https (bs "app.example.com") None target = WTuple w_http (bs "evil.example") None /\
+  ru_wire_location RuStandalone [[]] target None = Some (bs "/oauth2/login").
+Proof. exact ru_seeded_witness. Qed.
+Print Assumptions c04_retry_request_uri_refuted.
